@@ -50,8 +50,9 @@ def run(ctx):
     R = ctx.report
     repo = ctx.repo
     ctx.use_files("suit_generator/cmd_cache_create.py", "suit_generator/cmd_payload_extract.py")
-    ev = Evaluator(repo, inline_depth=0)
     fi = repo.func(CC, "CacheFromEnvelope.fill_cache_from_envelope_data")
+    # helpers of the same module are followed; the recursive call and the cache methods stay opaque
+    ev = Evaluator(repo, inline_depth=2, inline_filter=lambda f: f is not fi and f.module is fi.module and (f.cls is None or f.cls is fi.cls))
     fq = ctx.fq(fi)
     outs = ev.outcomes(fi)
     rets = [o for o in outs if o.kind == "return"]
